@@ -51,7 +51,8 @@ Reset == /\ IsEvent("reset")
 
 NewSock == /\ IsEvent("op") /\ Ev.op \in {"udp", "tcp"} /\ expect = NoExp
            /\ socks' = (Ev.s :> [typ |-> Ev.op, v |-> Ev.v, st |-> "init", laddr |-> AnyA, lport |-> 0, raddr |-> AnyA, rport |-> 0,
-                                 nets |-> {Ev.v}, rcvclosed |-> FALSE, v6only |-> FALSE]) @@ socks
+                                 nets |-> {Ev.v}, rcvclosed |-> FALSE, v6only |-> FALSE,
+                                 holds |-> FALSE, haddr |-> AnyA, hport |-> 0, hnets |-> {}]) @@ socks
            /\ q' = (Ev.s :> <<>>) @@ q
            /\ UNCHANGED <<addrs, promisc, pemit, expect>>
 
@@ -60,7 +61,9 @@ NetsOf(sk, addr) == IF sk.v = 4 THEN {4} ELSE IF addr = AnyA /\ ~sk.v6only THEN 
 Bind == /\ IsEvent("op") /\ Ev.op = "bind" /\ expect = NoExp
         /\ IF Ev.err = ""
            THEN socks' = [socks EXCEPT ![Ev.s].st = "bound", ![Ev.s].laddr = Ev.addr, ![Ev.s].lport = Ev.lport,
-                                       ![Ev.s].nets = NetsOf(socks[Ev.s], Ev.addr)]
+                                       ![Ev.s].nets = NetsOf(socks[Ev.s], Ev.addr),
+                                       ![Ev.s].holds = TRUE, ![Ev.s].haddr = Ev.addr, ![Ev.s].hport = Ev.lport,
+                                       ![Ev.s].hnets = NetsOf(socks[Ev.s], Ev.addr)]
            ELSE UNCHANGED socks
         /\ UNCHANGED <<addrs, promisc, q, pemit>> /\ expect' = expect
 
@@ -68,7 +71,12 @@ Connect == /\ IsEvent("op") /\ Ev.op = "connect" /\ expect = NoExp /\ socks[Ev.s
            /\ IF Ev.err = ""
               THEN socks' = [socks EXCEPT ![Ev.s].st = "conn", ![Ev.s].laddr = Ev.laddr, ![Ev.s].lport = Ev.lport,
                                           ![Ev.s].raddr = Ev.addr, ![Ev.s].rport = Ev.port,
-                                          ![Ev.s].nets = IF socks[Ev.s].v = 4 THEN {4} ELSE {6}]
+                                          ![Ev.s].nets = IF socks[Ev.s].v = 4 THEN {4} ELSE {6},
+                                          ![Ev.s].holds = TRUE,
+                                          ![Ev.s].haddr = IF socks[Ev.s].holds THEN socks[Ev.s].haddr ELSE Ev.laddr,
+                                          ![Ev.s].hport = IF socks[Ev.s].holds THEN socks[Ev.s].hport ELSE Ev.lport,
+                                          ![Ev.s].hnets = IF socks[Ev.s].holds THEN socks[Ev.s].hnets
+                                                          ELSE IF socks[Ev.s].v = 4 THEN {4} ELSE IF socks[Ev.s].v6only THEN {6} ELSE {4, 6}]
               ELSE UNCHANGED socks
            /\ UNCHANGED <<addrs, promisc, q, pemit>> /\ expect' = expect
 
@@ -80,6 +88,8 @@ SetOpt == /\ IsEvent("op") /\ Ev.op = "setopt" /\ expect = NoExp
           /\ IF Ev.opt = "v6only" /\ Ev.err = "" THEN socks' = [socks EXCEPT ![Ev.s].v6only = (Ev.val # 0)] ELSE UNCHANGED socks
           /\ UNCHANGED <<addrs, promisc, q, pemit>> /\ expect' = expect
 
+AutoBind(s, lp) == [socks EXCEPT ![s].st = "bound", ![s].lport = lp, ![s].nets = NetsOf(socks[s], AnyA),
+                                  ![s].holds = TRUE, ![s].haddr = AnyA, ![s].hport = lp, ![s].hnets = NetsOf(socks[s], AnyA)]
 \* C11 emission side: a successful write is exactly one emitted datagram with exactly these bytes,
 \* from the socket's port to the addressed peer; a failed write emits nothing.
 Write == /\ IsEvent("op") /\ Ev.op = "write" /\ expect = NoExp
@@ -95,10 +105,9 @@ Write == /\ IsEvent("op") /\ Ev.op = "write" /\ expect = NoExp
                     /\ (sk.laddr # AnyA => pemit[1].src = sk.laddr)
                     /\ (\E n \in {a[1] : a \in addrs} : <<n, pemit[1].src>> \in addrs)
                     /\ pemit[1].lenok /\ pemit[1].sumok /\ pemit[1].iphdrok
-                    /\ socks' = IF sk.st = "init"
-                                THEN [socks EXCEPT ![Ev.s].st = "bound", ![Ev.s].lport = Ev.lport, ![Ev.s].nets = NetsOf(sk, AnyA)]
-                                ELSE socks
-               ELSE pemit = <<>> /\ UNCHANGED socks
+                    /\ socks' = IF sk.st = "init" THEN AutoBind(Ev.s, Ev.lport) ELSE socks
+               ELSE /\ pemit = <<>>
+                    /\ socks' = IF sk.st = "init" /\ "lport" \in DOMAIN Ev /\ Ev.lport # 0 THEN AutoBind(Ev.s, Ev.lport) ELSE socks
          /\ pemit' = <<>> /\ UNCHANGED <<addrs, promisc, q>> /\ expect' = expect
 
 EmitUdp == /\ IsEvent("emit") /\ Ev.kind = "udp" /\ expect = NoExp
@@ -141,7 +150,7 @@ Shutdown == /\ IsEvent("op") /\ Ev.op = "shutdown" /\ expect = NoExp
             /\ UNCHANGED <<addrs, promisc, pemit, expect>>
 
 Close == /\ IsEvent("op") /\ Ev.op = "close" /\ expect = NoExp
-         /\ socks' = [socks EXCEPT ![Ev.s].st = "closed", ![Ev.s].rcvclosed = TRUE]
+         /\ socks' = [socks EXCEPT ![Ev.s].st = "closed", ![Ev.s].rcvclosed = TRUE, ![Ev.s].holds = FALSE]
          /\ q' = [q EXCEPT ![Ev.s] = <<>>]
          /\ UNCHANGED <<addrs, promisc, pemit, expect>>
 
@@ -193,7 +202,13 @@ EmitOther == /\ IsEvent("emit") /\ Ev.kind \notin {"udp", "tcp"}
              /\ UNCHANGED <<addrs, promisc, socks, q, pemit, expect>>
 TcpConnect == /\ IsEvent("op") /\ Ev.op \in {"connect", "accept"} /\ expect = NoExp /\ socks[Ev.s].typ = "tcp"
               /\ UNCHANGED <<addrs, promisc, socks, q, pemit, expect>>
-Avail == /\ IsEvent("op") /\ Ev.op = "avail" /\ UNCHANGED <<addrs, promisc, socks, q, pemit, expect>>
+\* C10 at socket level: IsPortAvailable answers exactly "no live socket holds a conflicting reservation":
+\* reservations are made at bind / auto-bind, are exclusive, and are released by Close (and by nothing else)
+HeldConflict(nets, t, a, p) == \E s \in Sids : socks[s].holds /\ socks[s].typ = t /\ socks[s].hport = p /\ socks[s].hnets \cap nets # {}
+                                  /\ (a = AnyA \/ socks[s].haddr = AnyA \/ socks[s].haddr = a)
+Avail == /\ IsEvent("op") /\ Ev.op = "avail" /\ expect = NoExp
+         /\ \A i \in 1..Len(Ev.tuples) : LET tu == Ev.tuples[i] IN Ev.avail[i] = ~HeldConflict(SeqToSet(tu[1]), tu[2], tu[3], tu[4])
+         /\ UNCHANGED <<addrs, promisc, socks, q, pemit, expect>>
 
 TNext == Reset \/ NewSock \/ Bind \/ Connect \/ Listen \/ SetOpt \/ Write \/ EmitUdp \/ InjectUdp \/ Read \/ ReadAll
          \/ Shutdown \/ Close \/ AddrOps \/ InjectTcp \/ EmitRst \/ EmitTcpOther \/ Settle \/ EndExpect \/ EmitOther
